@@ -94,7 +94,9 @@ class World:
         return False      # only the worker holding a job reports it finished
 
     def kill(self, jobid):
-        self.conns[1].rpc_qkill([jobid])
+        # a client's connection (3), not a worker's: rpc_qkill also forgets the job in the killing connection's
+        # own running_jobs, which would hide what a worker still holding the job does later
+        self.conns[3].rpc_qkill([jobid])
 
     def advance(self, dt=100.0):
         self.now[0] += dt
@@ -191,7 +193,7 @@ def apply(world, op):
     elif kind == "drop":
         if op[1] >= len(world.added):
             return False
-        world.conns[1].rpc_qdrop([world.added[op[1]]])
+        world.conns[3].rpc_qdrop([world.added[op[1]]])
     elif kind == "clock":
         world.advance()
     elif kind == "disconnect":
@@ -266,6 +268,30 @@ def search(max_len, checks=("c16", "c17"), budget=200000, seed=0, want=None, ran
                 for killed in [None] + list(range(k)):
                     hist = [("add", "a", p) for p in prios] + ([("kill", killed)] if killed is not None else []) + \
                            [("pull", 1, ("a",)), ("finish", 0), ("finish", 1), ("finish", 2), ("pull", 2, ()), ("pull", 1, ("a",))]
+                    n += 1
+                    res, msg = run_history(hist, checks, lenient=True)
+                    if res is None:
+                        continue
+                    applicable += 1
+                    if res != "ok" and (want is None or res == want):
+                        f = {"check": res, "history": [list(o) for o in hist], "detail": msg}
+                        if skip is not None and skip(f):
+                            if skipped is not None and not skipped:
+                                skipped.append(f)
+                            continue
+                        return n, applicable, f, samples
+    if "c16" in checks:
+        # targeted families (deeper than the exhaustive bound, small alphabets):
+        #  (1) an id that is killed and added again while a worker still holds / has released the old job
+        #  (2) a job finished while it is queued BEHIND another one, then pulls
+        fams = [([("add", "a", 0), ("pull", 1, ("a",)), ("run",)],
+                 [("kill", 0), ("readd", 0), ("pull", 2, ("a",)), ("run",), ("disconnect", 1), ("disconnect", 2), ("pull", 1, ("a",))], 4),
+                ([("add", "a", 0), ("add", "a", 0)],
+                 [("kill", 1), ("kill", 0), ("finish", 1), ("pull", 1, ("a",)), ("pull", 2, ("a",)), ("run",)], 4)]
+        for prefix, alpha, depth in fams:
+            for ln in range(1, depth + 1):
+                for tail in itertools.product(alpha, repeat=ln):
+                    hist = prefix + list(tail) + [("run",)]
                     n += 1
                     res, msg = run_history(hist, checks, lenient=True)
                     if res is None:
